@@ -122,6 +122,35 @@ pub fn run(args: &Args) {
         };
         t.emit(json!({"event":"Level","kind":kind,"level":level,"outcome":o}));
     }
+    // numbers handed to the file setters: every kind of mode value (i32 and u16 routes), with and without a link target
+    {
+        let mut modes: Vec<i64> = vec![i32::MIN as i64, i32::MIN as i64 + 1, -65537, -65536, -65535, -40000, -32769, -32768, -32767, -16385,
+                                       -4096, -512, -2, -1, 0, 1, 0o777, 0o7777, 0o10000, 0o40755, 0o100644, 0o100664, 0o120777, 0o140000,
+                                       0o170000, 0o177777, 65536, 65537, 100000, i32::MAX as i64];
+        let mut x = -70001i64;
+        while x < 70000 { modes.push(x); x += 997; }
+        for m in modes {
+            let (o, msg) = outcome(guarded(|| {
+                let opts = FileOptions::new("/usr/share/verif/mode-file").mode(m as i32);
+                let pkg = PackageBuilder::new("modes", "1", "MIT", "noarch", "s").compression(CompressionWithLevel::None)
+                    .with_file(&src, opts)?.build()?;
+                let mut out = Vec::new();
+                pkg.write(&mut Plain(&mut out))?;
+                Ok::<_, rpm::Error>(())
+            }));
+            t.emit(json!({"event":"Meta","fields":["mode(i32)", m.to_string()],"outcome":o,"msg":msg}));
+            if (0..=65535).contains(&m) {
+                let (o, msg) = outcome(guarded(|| {
+                    let opts = FileOptions::new("/usr/share/verif/mode-file").mode(m as u16).symlink("target");
+                    let pkg = PackageBuilder::new("modes", "1", "MIT", "noarch", "s").with_file(&src, opts)?.build()?;
+                    let mut out = Vec::new();
+                    pkg.write(&mut Plain(&mut out))?;
+                    Ok::<_, rpm::Error>(())
+                }));
+                t.emit(json!({"event":"Meta","fields":["mode(u16)+symlink", m.to_string()],"outcome":o,"msg":msg}));
+            }
+        }
+    }
     // metadata setters with arbitrary strings
     let pool: Vec<&str> = vec!["", "a", "multi\nline", "é日本", "x\u{0}y", " ", "-", "1:2-3", "%{macro}", "a/b", "\u{1F600}"];
     let long = "L".repeat(70000);
